@@ -20,6 +20,7 @@ struct Case {
 }
 
 fn bytes_ok(f: &Factory, m: &mut llguidance::Matcher, bytes: &[u8]) -> bool {
+    crate::watchdog::beat();
     let trie = f.env.tok_trie();
     for b in bytes {
         let Some(t) = trie.token_id(&[*b]) else { return false };
@@ -111,6 +112,31 @@ fn cases(nmax: usize, quick: bool) -> Vec<Case> {
             out.push(Case { level: lvl, g: GrammarSpec::Json(st.clone()), prefix: b"\"".to_vec(), units, sep: vec![], suffix: b"\"".to_vec(), m, n });
         }
     }
+    // minItems / maxItems next to prefixItems (items a schema or false): the tuple part counts too
+    for p in 1..=3usize {
+        for items_false in [false, true] {
+            let mut bs: Vec<(usize, Option<usize>)> = vec![];
+            for n in 0..=6usize {
+                for m in 0..=n {
+                    bs.push((m, Some(n)));
+                }
+            }
+            for m in 0..=4usize {
+                bs.push((m, None));
+            }
+            for (m, n) in bs {
+                let eff_n = if items_false { Some(n.map_or(p, |n| n.min(p))) } else { n };
+                if eff_n.map_or(false, |e| e < m) {
+                    continue; // unsatisfiable: refusal is the right answer (C08's / C06's question)
+                }
+                let mut arr = json!({"type": "array", "prefixItems": vec![json!({"type": "null"}); p], "items": if items_false { json!(false) } else { json!({"type": "null"}) }, "minItems": m, "x-guidance": {"whitespace_flexible": false}});
+                if let Some(n) = n {
+                    arr["maxItems"] = json!(n);
+                }
+                out.push(Case { level: if items_false { "json-items-prefix-closed" } else { "json-items-prefix" }, g: GrammarSpec::Json(arr), prefix: b"[".to_vec(), units: vec![b"null".to_vec()], sep: b",".to_vec(), suffix: b"]".to_vec(), m, n: eff_n });
+            }
+        }
+    }
     // * + ?
     for (op, m, n) in [("*", 0usize, None), ("+", 1, None), ("?", 0, Some(1usize))] {
         out.push(Case { level: "rule-op", g: GrammarSpec::Lark(format!("start: \"a\"{op} \"b\"")), prefix: vec![], units: a(), sep: vec![], suffix: b"b".to_vec(), m, n });
@@ -193,6 +219,6 @@ pub fn run(ctx: &Ctx) -> Coverage {
     ctx.validated.store(evals.load(Ordering::Relaxed), Ordering::Relaxed);
     let _: Option<Value> = None;
     Coverage::StateGraph {
-        rule: format!("every 0 <= m <= n <= {nmax} and open forms {{m,}}, *, +, ? at rule, two-symbol-rule, terminal, regex and from_regex level, JSON min/maxItems, min/maxLength (ASCII, 2-byte, 4-byte characters, escapes, mixed) and min/maxProperties; for each every count 0..n+3 (open: m+6): the text with k repetitions is fed byte by byte through mask + commit on the real engine; viable-prefix <=> k <= n and complete <=> m <= k <= n; states = grammars, transitions = (grammar, count) walks"),
+        rule: format!("every 0 <= m <= n <= {nmax} and open forms {{m,}}, *, +, ? at rule, two-symbol-rule, terminal, regex and from_regex level, JSON min/maxItems (also next to 1-3 prefixItems with items a schema or false, all m <= n <= 6), min/maxLength (ASCII, 2-byte, 4-byte characters, escapes, mixed) and min/maxProperties; for each every count 0..n+3 (open: m+6): the text with k repetitions is fed byte by byte through mask + commit on the real engine; viable-prefix <=> k <= n and complete <=> m <= k <= n; states = grammars, transitions = (grammar, count) walks"),
     }
 }
